@@ -93,13 +93,18 @@ func parseDate(buf []byte) (t time.Time, err error) {
 		// hold any number of values
 		return t, errDateFormat
 	}
-	str := string(buf)
-	if t, err = time.Parse("2006-01-02T15:04:05Z07:00", str); err != nil {
-		if t, err = time.Parse("2006-01-02T15:04:05.00", str); err != nil {
-			return time.Parse("2006-01-02T15:04:05", str)
+	// One layout is tried, chosen by what follows the seconds: a zone ('Z' or an
+	// offset) or nothing but a fraction, which time.Parse accepts behind the
+	// seconds of either layout. (A value of the right shape can still fail - month
+	// 13 - and each failed attempt allocates an error that quotes it.)
+	layout := "2006-01-02T15:04:05"
+	for _, c := range buf[len("2006-01-02T1:04:05"):] {
+		if c == 'Z' || c == '+' || c == '-' {
+			layout = "2006-01-02T15:04:05Z07:00"
+			break
 		}
 	}
-	return
+	return time.Parse(layout, string(buf))
 }
 
 // parseUUID parses a UUID and returns a meta.UUID
